@@ -1468,15 +1468,16 @@ func (l *lexer) scanCmdSubst(r rune) bool {
 		yyParse(ll)
 		<-ll.done
 		if ll.err != nil {
-			l.mu.Lock()
-			l.err = ll.err
-			if err, ok := l.err.(Error); ok && len(ll.stack) == 0 && r == '`' {
-				l.err = Error{
-					Name: err.Name,
-					Pos:  err.Pos,
+			err := ll.err
+			if e, ok := err.(Error); ok && len(ll.stack) == 0 && r == '`' {
+				err = Error{
+					Name: e.Name,
+					Pos:  e.Pos,
 					Msg:  "syntax error: unexpected '`'",
 				}
 			}
+			l.mu.Lock()
+			l.record(err)
 			l.mu.Unlock()
 			break
 		}
@@ -1688,19 +1689,30 @@ func (l *lexer) error(pos ast.Pos, msg string) {
 	if l.err != nil && strings.Contains(msg, ": unexpected EOF") {
 		return // lexing was interrupted
 	}
-	// keep an error recorded by the source reader
-	if _, ok := l.err.(Error); ok || l.err == nil {
-		l.err = Error{
-			Name: l.name,
-			Pos:  pos,
-			Msg:  msg,
-		}
-	}
+	l.record(Error{
+		Name: l.name,
+		Pos:  pos,
+		Msg:  msg,
+	})
 
 	select {
 	case <-l.cancel:
 	default:
 		close(l.cancel)
+	}
+}
+
+// record stores err unless an error which takes precedence is already
+// recorded: an error of the source reader is kept, and of two syntax
+// errors the one found first in the source is kept, so that the result
+// does not depend on which goroutine reports first. l.mu must be held.
+func (l *lexer) record(err error) {
+	if l.err == nil {
+		l.err = err
+	} else if prev, ok := l.err.(Error); ok {
+		if e, ok := err.(Error); !ok || e.Pos.Before(prev.Pos) {
+			l.err = err
+		}
 	}
 }
 
